@@ -553,12 +553,10 @@ func dependsOn(v ssa.Value, pred func(ssa.Value) bool) ssa.Value {
 		}
 		// loads from local allocs: follow stores
 		if u, ok := v.(*ssa.UnOp); ok && u.Op == token.MUL {
-			if a, ok := u.X.(*ssa.Alloc); ok {
-				for _, r := range *a.Referrers() {
-					if st, ok := r.(*ssa.Store); ok && st.Addr == a {
-						if hit := rec(st.Val); hit != nil {
-							return hit
-						}
+			if a := rootAlloc(u.X); a != nil {
+				for _, st := range storesInto(a) {
+					if hit := rec(st.Val); hit != nil {
+						return hit
 					}
 				}
 			}
@@ -658,4 +656,57 @@ func cellName(v ssa.Value) string {
 		return x.Name()
 	}
 	return ""
+}
+
+// rootAlloc walks FieldAddr/IndexAddr chains down to a local Alloc (nil if none).
+func rootAlloc(v ssa.Value) *ssa.Alloc {
+	for i := 0; i < 8; i++ {
+		switch x := v.(type) {
+		case *ssa.Alloc:
+			return x
+		case *ssa.FieldAddr:
+			v = x.X
+		case *ssa.IndexAddr:
+			v = x.X
+		default:
+			return nil
+		}
+	}
+	return nil
+}
+
+// storesInto lists stores whose address is the alloc or a field/element address inside it
+// (field-insensitive over-approximation, used for "depends on" questions only).
+func storesInto(a *ssa.Alloc) []*ssa.Store {
+	var out []*ssa.Store
+	seen := map[ssa.Value]bool{}
+	var walk func(addr ssa.Value)
+	walk = func(addr ssa.Value) {
+		if seen[addr] {
+			return
+		}
+		seen[addr] = true
+		refs := addr.Referrers()
+		if refs == nil {
+			return
+		}
+		for _, r := range *refs {
+			switch x := r.(type) {
+			case *ssa.Store:
+				if x.Addr == addr {
+					out = append(out, x)
+				}
+			case *ssa.FieldAddr:
+				if x.X == addr {
+					walk(x)
+				}
+			case *ssa.IndexAddr:
+				if x.X == addr {
+					walk(x)
+				}
+			}
+		}
+	}
+	walk(a)
+	return out
 }
